@@ -5,6 +5,8 @@
 #include <fstream>
 #include <sys/stat.h>
 #include <unistd.h>
+#include <signal.h>
+#include <algorithm>
 
 namespace vf {
 
@@ -178,5 +180,22 @@ void emitResultAndExit(const Result& res) {
     }
     _exit(0);
 }
+
+static char g_hangLine[4096];
+static size_t g_hangLen = 0;
+static void hangHandler(int) {
+    if (g_resultFd >= 0 && g_hangLen) { ssize_t w = write(g_resultFd, g_hangLine, g_hangLen); (void)w; }
+    _exit(0);
+}
+void armHangWatchdog(int seconds, const std::string& property, const std::string& vclass, const std::string& detail) {
+    Result r;
+    r.violate(property, vclass, detail);
+    std::string j = r.toJson() + "\n";
+    g_hangLen = std::min(j.size(), sizeof(g_hangLine));
+    memcpy(g_hangLine, j.data(), g_hangLen);
+    signal(SIGALRM, hangHandler);
+    alarm((unsigned)seconds);
+}
+void disarmHangWatchdog() { signal(SIGALRM, SIG_DFL); alarm(120); } // back to the plain per-run watchdog
 
 } // namespace vf
